@@ -73,12 +73,14 @@ func (pj *internalParsedJson) parseMessage(msg []byte, ndjson bool) (err error) 
 
 	// Do long inputs async
 	if len(pj.Message) > 8<<10 {
+		verifEvent(verifEvPath, pj, 1, uint64(len(pj.Message)), nil)
 		var wg sync.WaitGroup
 		wg.Add(1)
 		go func() {
 			defer wg.Done()
 			if ok, done := pj.unifiedMachine(); !ok {
 				err = errors.New("Bad parsing while executing stage 2")
+				verifEvent(verifEvStage2Exit, pj, verifB2U(done), 0, nil)
 				// Keep consuming...
 				if !done {
 					for idx := range pj.indexChans {
@@ -94,6 +96,7 @@ func (pj *internalParsedJson) parseMessage(msg []byte, ndjson bool) (err error) 
 		}
 		wg.Wait()
 	} else {
+		verifEvent(verifEvPath, pj, 0, uint64(len(pj.Message)), nil)
 		if !pj.findStructuralIndices() {
 			// drain the channel until empty
 			for idx := range pj.indexChans {
